@@ -442,6 +442,12 @@ def rule_zero_below_sp(ctx):
                     stores.append((x, si, o._rvalue(st["r"], (x, si), 0)))
         okz = len(stores) == 1 and stores[0][2] == ("const", 0, "u8")
         zero_loops += 1
+        # ... of the caller's buffer: the bytes walked over are a view into stack_copy, not an owned copy of it (`.to_vec()`, `.clone()`,
+        # `.to_owned()`, `collect()` make the zeroes land in a temporary that is dropped)
+        COPYING = {"to_vec", "clone", "to_owned", "collect", "cloned", "copied", "into_vec", "from", "into_boxed_slice", "concat", "repeat"}
+        copies = sorted({s_[1].split("::")[-1] for s_ in walk(it) if s_[0] == "call" and s_[1].split("::")[-1] in COPYING})
+        ctx.check(not copies and any(s_ == ("param", 2) for s_ in walk(it)), R, ("zero-" + ("prefix" if is_prefix else "remainder"), "in-place"), b.where(h),
+                  "the zeroed bytes are a view into the caller's stack copy", "the zeroed bytes are %s: the caller's buffer keeps its bytes" % (("a copy made by %s()" % ", ".join(copies)) if copies else "not derived from the stack copy"))
         ctx.check(okz, R, "zero-" + ("prefix" if is_prefix else "remainder"), b.where(h), "every byte of the %s is set to 0" % ("prefix below SP" if is_prefix else "trailing partial word"),
                   "%s loop does not simply zero each byte" % ("prefix" if is_prefix else "remainder"))
     # a prefix cleared with `stack_copy[0..offset].fill(0)` instead of a loop
